@@ -154,7 +154,7 @@ def replay(cs, scenario, graph, rec, modes=DEFAULT_MODES, foreign=True, max_stat
             for j, e in enumerate(eids):
                 last = rec.step(e, sps[j], u, grp=grp)
                 tree_steps += 1
-        kept[s] = rec.envs[eids[0]].current_state
+        kept[s] = rec.hold(rec.envs[eids[0]].current_state)
         for e in eids[:2]:
             rec.goal(e, None)
         if extras and si % 5 == 2:
